@@ -56,6 +56,25 @@ Definition failure_terminates_and_clears : bool :=
 Definition start_workers_resets : bool :=
   has "self._cache[MAIN_PROCESS].reset()" start_workers_body && has "self._cache[INIT_FUNC].reset()" start_workers_body &&
   has "self._cache[EXIT_FUNC].reset()" start_workers_body.
+(* apply_async touches the pool-side map parameters only when it has to start the workers: running workers (and the
+   replacements the restart handler builds from the pool-side copy) keep the parameters of the last map call *)
+Definition apply_sets_params_only_when_starting : bool :=
+  match apply_async_body with
+  | a :: b :: c :: _ => String.eqb a "if not self._workers:" &&
+                        String.eqb b "  self.map_params = WorkerMapParams(func, worker_init, worker_exit, None, False, task_timeout, worker_init_timeout, worker_exit_timeout)" &&
+                        String.eqb c "  self._start_workers()"
+  | _ => false end.
+(* a worker forgets that it served an apply task before it takes the next task: the flag and the apply function are
+   reset at the top of EVERY iteration of its loop (inside the while, before the chunk is looked at) *)
+Definition apply_mode_reset_per_task : bool :=
+  follows "      apply_func = None" "      is_apply_func = False" worker_run_body &&
+  has "      self.is_apply_func = is_apply_func" worker_run_body &&
+  has "      self.is_apply_func = False" worker_run_body.
+(* the death of an idle worker is reported by exactly one call: the stored error is taken out BEFORE it is raised *)
+Definition idle_death_reported_once : bool :=
+  follows "if self._idle_worker_death is not None:" "  idle_worker_death, self._idle_worker_death = (self._idle_worker_death, None)"
+          imap_unordered_start &&
+  follows "  idle_worker_death, self._idle_worker_death = (self._idle_worker_death, None)" "  if self._workers:" imap_unordered_start.
 Definition eq_compares_all_fields : bool :=
   forallb (fun f => has f map_params_eq_fields) map_params_fields.
 
@@ -89,7 +108,8 @@ Inductive outcome := Ok | Fails | FailsPerm | CutShort.
    three permanent result objects); CutShort: a lazy call whose generator is closed before exhaustion, or whose input iterable raises *)
 Inductive hop :=
 | HCall (ordered : bool) (mp : mparams) (o : outcome)
-| HSetLayout (l : layout) | HSetKeepAlive (b : bool) | HStopAndJoin | HTerminate.
+| HSetLayout (l : layout) | HSetKeepAlive (b : bool) | HStopAndJoin | HTerminate
+| HApply (mp : mparams).                 (* apply_async: mp has no lifespan (the caller cannot give one) *)
 
 (* what a call that ran to completion used *)
 Record obs := mkObs { o_gen : nat; o_reused : bool; o_func : nat; o_ordered : bool; o_life : option nat; o_layout : layout;
@@ -109,6 +129,16 @@ Definition hstep (s : hst) (o : hop) : hst * option obs :=
   | HTerminate =>
       (mkH false (gen s) (w_layout s) (w_params s) (w_ordered s) (initialized s) (keep_order s) (p_layout s) (p_keep_alive s)
            (p_params s) (stale_err s), None)
+  | HApply mp =>
+      if alive s then
+        (* running workers serve the task; the pool-side copy of the parameters is left alone *)
+        (mkH (alive s) (gen s) (w_layout s)
+             (if apply_mode_reset_per_task then w_params s else mp)          (* else: the worker goes on calling the apply function *)
+             (w_ordered s) (initialized s) (keep_order s) (p_layout s) (p_keep_alive s)
+             (if apply_sets_params_only_when_starting then p_params s else Some mp) (stale_err s), None)
+      else
+        (mkH true (S (gen s)) (p_layout s) mp false true (keep_order s) (p_layout s) (p_keep_alive s) (Some mp)
+             (if start_workers_resets then false else stale_err s), None)
   | HCall ordered mp out =>
       let ko := if ordered && ordered_calls_set_and_clear_flag then true else keep_order s in
       (* settings changed while workers are alive: restart them *)
@@ -125,7 +155,7 @@ Definition hstep (s : hst) (o : hop) : hst * option obs :=
       let wp2 := if fresh then mp else wp1 in
       let wo2 := if fresh then ko else wo1 in
       let init2 := if fresh then true else initialized s in
-      let stale2 := if fresh && start_workers_resets then false else stale_err s in
+      let stale2 := if fresh && start_workers_resets && idle_death_reported_once then false else stale_err s in
       let used_ordered := if helper_chosen_per_chunk then ko else wo2 in
       let ob := mkObs gen2 (negb fresh) (mp_func wp2) used_ordered
                       (if lifespan_read_from_current_params then mp_life wp2 else mp_life (w_params s)) wl2 (mp_tt wp2)
